@@ -29,10 +29,14 @@ DESTS = [('127.0.0.1', 2004, 'a'), ('127.0.0.2', 2004, 'b'), ('127.0.0.3', 2004,
 
 def configs(tier, seed):
   cfgs = []
+  i = 0
   for mq in (2, 4, 10):
     for fc in (True, False):
       for low in ((0.5,) if tier == 'quick' else (0.25, 0.8)):
-        cfgs.append(dict(name='q%d/fc%d/low%s' % (mq, fc, low), maxq=mq, fc=fc, low=low))
+        # MAX_QUEUE_SIZE_HARD_PCT: the default, no headroom at all, and twice the queue size
+        hp = [1.25, 1.0, 2.0][i % 3]
+        i += 1
+        cfgs.append(dict(name='q%d/fc%d/low%s/hard%s' % (mq, fc, low, hp), maxq=mq, fc=fc, low=low, hardpct=hp))
   return cfgs
 
 
@@ -79,15 +83,16 @@ def run_sequence(ns, dests, events, receivers=0):
 def run_config(cfg, res, relay_oracle=None, extra_weights=None):
   from vlib import relayharness as rh
   rl = rh.boot_relay({'RELAY_METHOD': 'constant', 'DESTINATIONS': '127.0.0.1:2004:a', 'MAX_QUEUE_SIZE': cfg['maxq'],
-                      'USE_FLOW_CONTROL': cfg['fc'], 'QUEUE_LOW_WATERMARK_PCT': cfg['low'], 'TIME_TO_DEFER_SENDING': 0.0001})
+                      'USE_FLOW_CONTROL': cfg['fc'], 'QUEUE_LOW_WATERMARK_PCT': cfg['low'], 'TIME_TO_DEFER_SENDING': 0.0001,
+                      'MAX_QUEUE_SIZE_HARD_PCT': cfg.get('hardpct', 1.25)})
   ns = rl.ns
   import carbon.client as _client
-  exp_hard = cfg['maxq'] * ns.settings.MAX_QUEUE_SIZE_HARD_PCT if cfg['fc'] else cfg['maxq']
+  exp_hard = cfg['maxq'] * cfg.get('hardpct', 1.25) if cfg['fc'] else cfg['maxq']
   exp_low = cfg['maxq'] * cfg['low']
   if abs(_client.SEND_QUEUE_HARD_MAX - exp_hard) > 1e-9 or abs(_client.SEND_QUEUE_LOW_WATERMARK - exp_low) > 1e-9:
     res.violation(('relay/' if relay_oracle else '') + 'derived-limits',
                   'MAX_QUEUE_SIZE=%s USE_FLOW_CONTROL=%s QUEUE_LOW_WATERMARK_PCT=%s MAX_QUEUE_SIZE_HARD_PCT=%s give hard limit %s / low watermark %s '
-                  'by the documentation, carbon uses %s / %s' % (cfg['maxq'], cfg['fc'], cfg['low'], ns.settings.MAX_QUEUE_SIZE_HARD_PCT,
+                  'by the documentation, carbon uses %s / %s' % (cfg['maxq'], cfg['fc'], cfg['low'], cfg.get('hardpct', 1.25),
                                                                 exp_hard, exp_low, _client.SEND_QUEUE_HARD_MAX, _client.SEND_QUEUE_LOW_WATERMARK))
   r = gen.rng(cfg['seed'], PROPERTY, cfg['name'])
   vs = variants(r, cfg['tier'])
